@@ -48,7 +48,7 @@ def bounds(tier):
     return {"tier": tier, "name_sets": sum(1 for k in range(0, 6) for _ in itertools.combinations(NAMES, k)),
             "constructors": ["obj"] + sorted(OBJ_CLASSES) + ["array(dict)", "array(dtype)", "zip", "Array"] + ["the 20 from_<names> class methods on the 6 object classes"],
             "value_kinds": "int, float, numpy.float64, numpy.int32, numpy.float32 accepted verbatim; bool, None, str, complex, list, numpy.bool_ rejected (one position at a time, every accepted set)",
-            "unknown_names": ["w", "pE"], "column_containers": "every accepted set through vector.array(dict) and vector.zip with the columns in mixed containers (int64/int32/float32/float64 arrays, lists, tuples), all 6 rotations",
+            "unknown_names": ["w", "pE"], "value_sets": "distinct tag values; all 0.0; all 0; zero for the first / last written name", "column_containers": "every accepted set through vector.array(dict) and vector.zip with the columns in mixed containers (int64/int32/float32/float64 arrays, lists, tuples), all 6 rotations",
             "keyword_orders": "keyword constructors: every permutation of every name set (5-name sets in quick: canonical, reversed, 4 rotations); array constructors: canonical and reversed field order"}
 
 
@@ -369,6 +369,22 @@ def check_set(res: Result, names, tier, only=None):
         if not names:
             w = None
         check_objlike(res, cname, cls, names, values, w, dict(case, ctor=cname))
+    # the same name set with zero values (float and int zeros, and a zero only for the first-written name): acceptance is a matter
+    # of the *names*; a presence test written as a truthiness test shows only here
+    for ztag, zvals in (("all-0.0", {n: 0.0 for n in NAMES}), ("all-0", {n: 0 for n in NAMES}), ("first-0.0", dict(TAG, **({names[0]: 0.0} if names else {}))),
+                        ("last-0.0", dict(TAG, **({names[-1]: 0.0} if names else {})))):
+        if not names:
+            break
+        zc = dict(case, values=ztag)
+        if only is None or only == "obj":
+            check_objlike(res, "obj", vector.obj, names, zvals, want, dict(zc, ctor="obj"))
+        for cname, (cls, cdim, cflavor) in OBJ_CLASSES.items():
+            if only is not None and only != cname:
+                continue
+            w = want
+            if w is not None:
+                w = (w[0], w[1], cflavor, w[3]) if w[0] == cdim else None
+            check_objlike(res, cname, cls, names, zvals, w, dict(zc, ctor=cname))
     for cname, fn in ARRAY_CTORS.items():
         if only is not None and only != cname:
             continue
